@@ -417,6 +417,14 @@ theorem inputHashes_agree {p : Path} {st st' : St} (ha : AgreeOff p st st') (i :
   unfold inputHashes
   rw [resultsOf_agree ha ds hacyc]
 
+theorem ivid_agree {p : Path} {st st' : St} (ha : AgreeOff p st st') (i : Info) (ds : List Step)
+    (hacyc : ∀ d ∈ ds, d.path ≠ p) : ivid st' i ds = ivid st i ds := by
+  unfold ivid
+  congr 1
+  apply List.map_congr_left
+  intro d hd
+  rw [(ha d.path (hacyc d hd)).2.2.2.2]
+
 theorem ivid_sig (st : St) (i : Info) (ds : List Step) : (ivid st i ds).sig = i.sig := by
   simp [ivid, Vid.sig]
 
@@ -738,6 +746,9 @@ structure CRPost (E : Env) (dev : Bool) (Γ : Path → List (Dir × Digest)) (i 
   claim : ∀ cs, strip inH = hashes E cs → ∃ c, r'.st.disk i.path = some c ∧ Produced E dev i.sig cs c
   /-- the script ran in this invocation, i.e. with the current external world -/
   claimW : ∀ cs, strip inH = hashes E cs → ∃ c old, r'.st.disk i.path = some c ∧ E.sem i.sig i.world old cs = .ok c
+  dirFull : r'.st.dirStates i.path =
+    some (.co i.scms (some (Vid.mk i.sig (vids ds))) (some { loc := i.boLoc, upd := i.boUpd, ins := inH }))
+  vid : r'.st.variantIds i.path = some (ivid r'.st i ds)
 
 theorem vids_length (ds : List Step) : (vids ds).length = ds.length := by
   induction ds with
@@ -745,7 +756,8 @@ theorem vids_length (ds : List Step) : (vids ds).length = ds.length := by
   | cons d ds ih => simp [vids, ih]
 
 theorem checkoutRun_truthful (hinj : Function.Injective E.H) (cfg : Cfg) (i : Info) (ds : List Step)
-    (hwf : CoWF Γ i ds) (hk : i.sig.kind = .checkout) (old : OldCo) (oldHash : Option RH)
+    (hwf : CoWF Γ i ds) (hk : i.sig.kind = .checkout) (hacyc : ∀ d ∈ ds, d.path ≠ i.path) (old : OldCo)
+    (oldHash : Option RH)
     (r : Run) (h : Truthful E dev Γ r.st) (hold : ∀ x ∈ old.1, x ∈ Γ i.path)
     (hdisk : ∃ c, r.st.disk i.path = some c) (hoh : oldHash = r.st.results i.path) :
     wp (checkoutRun E cfg i ds old oldHash (resultsOf r.st ds))
@@ -876,7 +888,11 @@ theorem checkoutRun_truthful (hinj : Function.Injective E.H) (cfg : Cfg) (i : In
                       claimW := by
                         intro cs hcs
                         refine ⟨c, c0, by simpa [St.setDir, St.setInputs, St.setVid] using hd5, ?_⟩
-                        rw [contents_of_hashes hinj h ds cs hcs]; exact hsem }
+                        rw [contents_of_hashes hinj h ds cs hcs]; exact hsem
+                      dirFull := by simp [St.setDir, St.setInputs, St.setVid, d6]
+                      vid := by
+                        rw [ivid_agree (agree_setVid _ _ _) i ds hacyc]
+                        simp [St.setVid] }
       -- forge or not
       cases hres : r.st.results i.path with
       | none =>
@@ -948,6 +964,13 @@ def CoRecorded (E : Env) (i : Info) (ds : List Step) (inH : Inputs) (st' : St) :
   (∃ bo, st'.dirStates i.path = some (.co i.scms (some (Vid.mk i.sig (vids ds))) bo)) ∧
   st'.inputs i.path = some inH ∧ st'.results i.path = some (hashOf E st' i.path)
 
+/-- an indeterministic checkout was re-run: the complete directory state and the incremental
+variant id were written in this invocation -/
+def NondetRecorded (i : Info) (ds : List Step) (inH : Inputs) (st' : St) : Prop :=
+  i.det = false →
+    st'.dirStates i.path = some (.co i.scms (some (Vid.mk i.sig (vids ds))) (some { loc := i.boLoc, upd := i.boUpd, ins := inH })) ∧
+    st'.variantIds i.path = some (ivid st' i ds)
+
 /-- an indeterministic checkout has just been run with the current external world -/
 def RanNow (E : Env) (i : Info) (inH : Inputs) (st' : St) : Prop :=
   i.det = false → ∀ cs, strip inH = hashes E cs →
@@ -959,7 +982,7 @@ theorem cookCheckout_truthful (hinj : Function.Injective E.H) (cfg : Cfg) (i : I
     wp (cookCheckout E cfg i ds)
       (fun _ r' => Truthful E dev Γ r'.st ∧ r'.mem = r.mem ∧ AgreeOff i.path r.st r'.st ∧
         Cooked E dev i.sig i.path (resultsOf r.st ds) r'.st ∧ RanNow E i (resultsOf r.st ds) r'.st ∧
-        CoRecorded E i ds (resultsOf r.st ds) r'.st)
+        CoRecorded E i ds (resultsOf r.st ds) r'.st ∧ NondetRecorded i ds (resultsOf r.st ds) r'.st)
       (fun r' => Truthful E dev Γ r'.st) r := by
   unfold cookCheckout
   simp only [wp_bind, wp_getSt]
@@ -973,7 +996,7 @@ theorem cookCheckout_truthful (hinj : Function.Injective E.H) (cfg : Cfg) (i : I
             (prim (.setResult i.path (hashOf E r3.st i.path)) (fun s => s.setResult i.path (hashOf E r3.st i.path))))
         (fun _ r' => Truthful E dev Γ r'.st ∧ r'.mem = r.mem ∧ AgreeOff i.path r.st r'.st ∧
           Cooked E dev i.sig i.path (resultsOf r.st ds) r'.st ∧ RanNow E i (resultsOf r.st ds) r'.st ∧
-          CoRecorded E i ds (resultsOf r.st ds) r'.st)
+          CoRecorded E i ds (resultsOf r.st ds) r'.st ∧ NondetRecorded i ds (resultsOf r.st ds) r'.st)
         (fun r' => Truthful E dev Γ r'.st) r3 := by
     intro oh r3 st0 mem0 hp3 hm0 ha0
     have hin0 : resultsOf st0 ds = resultsOf r.st ds := resultsOf_agree ha0 ds hacyc
@@ -990,10 +1013,14 @@ theorem cookCheckout_truthful (hinj : Function.Injective E.H) (cfg : Cfg) (i : I
     · exact hp3.truthful
     · intro k l
       simp only [hashOf, hc3, Option.getD_some]
-      refine ⟨?_, hp3.mem.trans hm0, (ha0.trans hp3.agree).trans (agree_setResult _ _ _), ?_, ?_, ?_⟩
+      refine ⟨?_, hp3.mem.trans hm0, (ha0.trans hp3.agree).trans (agree_setResult _ _ _), ?_, ?_, ?_, ?_⟩
       rotate_left 3
       · exact ⟨⟨bo3, by simpa [St.setResult] using hd3⟩, by rw [← hin0]; simpa [St.setResult] using hp3.inputs,
           by simp [St.setResult, hashOf, hc3]⟩
+      · intro _
+        refine ⟨by rw [← hin0]; simpa [St.setResult] using hp3.dirFull, ?_⟩
+        rw [ivid_agree (agree_setResult _ _ _) i ds hacyc]
+        simpa [St.setResult] using hp3.vid
       rotate_left 2
       · intro _ cs hcs
         rw [← hin0] at hcs
@@ -1024,7 +1051,7 @@ theorem cookCheckout_truthful (hinj : Function.Injective E.H) (cfg : Cfg) (i : I
       have hreason : ∀ st inH, checkoutReason E cfg i ds true ([], none, none) st inH = true := by
         intro st inH; simp [checkoutReason]
       simp only [hreason, if_true]
-      have := checkoutRun_truthful (E := E) (dev := dev) (Γ := Γ) hinj cfg i ds hwf hk ([], none, none)
+      have := checkoutRun_truthful (E := E) (dev := dev) (Γ := Γ) hinj cfg i ds hwf hk hacyc ([], none, none)
         ((r1.st.reset i.path (some (.co [] none none))).results i.path)
         { st := r1.st.reset i.path (some (.co [] none none)), mem := r1.mem, fuel := k, log := l } h2
         (by intro x hx; cases hx) ⟨c1, by simpa [St.reset] using hc1⟩ rfl
@@ -1036,7 +1063,7 @@ theorem cookCheckout_truthful (hinj : Function.Injective E.H) (cfg : Cfg) (i : I
     have hst : r1.st = r.st := hp.ifExisted hcr
     split
     · -- some reason to run the checkout
-      have := checkoutRun_truthful (E := E) (dev := dev) (Γ := Γ) hinj cfg i ds hwf hk (coParts (r1.st.dirStates i.path))
+      have := checkoutRun_truthful (E := E) (dev := dev) (Γ := Γ) hinj cfg i ds hwf hk hacyc (coParts (r1.st.dirStates i.path))
         (r1.st.results i.path) r1 hp.truthful (coParts_scm (hp.truthful i.path)) ⟨c1, hc1⟩ rfl
       refine wp_mono _ _ _ _ _ _ ?_ (fun _ hx => hx) this
       intro oh r3 hp3
@@ -1080,10 +1107,11 @@ theorem cookCheckout_truthful (hinj : Function.Injective E.H) (cfg : Cfg) (i : I
         · exact hp.truthful
         · intro k l
           simp only [hashOf, hc1, Option.getD_some]
-          refine ⟨?_, hp.mem, hp.agree.trans (agree_setResult _ _ _), ?_, ?_, ?_⟩
+          refine ⟨?_, hp.mem, hp.agree.trans (agree_setResult _ _ _), ?_, ?_, ?_, ?_⟩
           rotate_left 3
           · exact ⟨⟨bo, by simpa [St.setResult] using hdir⟩, by rw [← hin1]; simpa [St.setResult] using hin,
               by simp [St.setResult, hashOf, hc1]⟩
+          · intro hnd; rw [hnd] at hdet; simp at hdet
           rotate_left 2
           · intro hnd; rw [hnd] at hdet; simp at hdet
           · apply truthful_co_setResult _ _ hp.truthful hc1 ⟨_, _, _, hdir⟩
@@ -1107,11 +1135,12 @@ theorem cookCheckout_truthful (hinj : Function.Injective E.H) (cfg : Cfg) (i : I
           have := of_decide_eq_false this
           simp only [ne_eq, Classical.not_not] at this
           rw [← this]; simp [hashOf, hc1]
-        refine ⟨hp.truthful, hp.mem, hp.agree, ?_, ?_, ?_⟩
+        refine ⟨hp.truthful, hp.mem, hp.agree, ?_, ?_, ?_, ?_⟩
         · intro cs hcs
           rw [← hin1] at hcs
           exact ⟨c1, hc1, hres, hprod cs hcs⟩
         · intro hnd; rw [hnd] at hdet; simp at hdet
         · exact ⟨⟨bo, hdir⟩, by rw [← hin1]; exact hin, by rw [hres]; simp [hashOf, hc1]⟩
+        · intro hnd; rw [hnd] at hdet; simp at hdet
 
 end Builder
